@@ -225,6 +225,19 @@ Theorem p2j_walk_output_valid : forall S o name m fuel p t,
 Proof. intros S o. exact (walk_output_valid o S). Qed.
 Print Assumptions p2j_walk_output_valid.
 
+(* unknown fields where encoders put them (after the declared fields of the top-level message): every record whose
+   number is not declared is skipped - the text is that of the message without them - or, under DisallowUnknownField,
+   the conversion fails as soon as there is one *)
+Theorem p2j_walk_unknown_tail : forall S o name md m u fuel p,
+  find_msg S name = Some md ->
+  wf_msg S name m = true -> pval_bytes_okb (VMsg m) = true -> (depth (VMsg m) <= fuel)%nat ->
+  pj_of S o name m = Some p -> forallb (unknown_rec md) u = true ->
+  p2j_walk fuel o S name (encode_msg m ++ wenc u) =
+  if o_disallow_unknown o && negb (match u with [] => true | _ => false end) then None
+  else if pj_finite p then Some (json_print (pj_json p)) else None.
+Proof. intros S o. exact (walk_unknown_tail o S). Qed.
+Print Assumptions p2j_walk_unknown_tail.
+
 (* the walk on the example message: Int642String on and off, and the unknown-field rule on the wire
    (field 99 is not declared: skipped, or the conversion fails under DisallowUnknownField) *)
 Example ex_walk_is_print :
